@@ -148,6 +148,18 @@ class Unit(object):
         return None
 
 
+def _level_text(prop):
+    """the claim as registered in MANIFEST.json (props/registry.py), so that evidence and manifest say the same thing"""
+    try:
+        from props import registry
+        for c in registry.CHECKS:
+            if c.get("property_id", c.get("id")) == prop:
+                return c.get("text")
+    except Exception:
+        return None
+    return None
+
+
 MAX_FAILED_PER_UNIT = 40
 
 
@@ -364,7 +376,7 @@ def finish(prop, mod, tier, seed, outs, wall):
         "checker_cmd": "./check %s --tier %s" % (prop, tier),
         "trusted_base": list(getattr(mod, "TRUSTED", [])) + ["T1 pyvc symbolic semantics of the Python subset + library models used: " + ", ".join(models_used or ["none"]),
                                                              "T2 z3 %s (cvc5 1.0.3 for z3-unknown string VCs)" % z3.get_version_string()],
-        "explanation": mod.EXPLANATION,
+        "explanation": _level_text(prop) or mod.EXPLANATION,
         "evaluations": n_ob + bcases,
         "distinct_nontrivial": len({r["oid"] for r in vcs}) + sum(b.get("distinct", 0) for o in outs for b in o["bounded"]),
         "rule": "one obligation per (clause, feasible path of the real function, argument shape); bounded stand-ins enumerate the stated scope; distinct = distinct obligation ids + distinct bounded cases",
